@@ -1021,3 +1021,187 @@ pub fn gen_fixed_for_float(rng: &mut Rng, lay: Lay, w: u32) -> u128 {
     let v = if lay.signed && rng.chance(1, 2) { mag.wrapping_neg() } else { mag };
     v & lay.mask()
 }
+
+// ------------------------------------------------------------------ operands for the math functions (raw bits only)
+
+/// pi * 2^125 (floor)
+pub const PI_125: u128 = 0x6487ed5110b4611a62633145c06e0e68;
+/// e * 2^125 (floor)
+pub const E_125: u128 = 0x56fc2a2c515da54d57ee2b10139e9e78;
+/// ln 2 * 2^127 (floor)
+pub const LN2_127: u128 = 0x58b90bfbe8e7bcd5e4f1d9cc01f97b57;
+
+/// (a * b) >> sh over the full 256-bit product, truncated to 128 bits
+pub fn mul_shr(a: u128, b: u128, sh: u32) -> u128 {
+    let (hi, lo) = mul_128(a, b);
+    if sh == 0 {
+        lo
+    } else if sh < 128 {
+        (lo >> sh) | (hi << (128 - sh))
+    } else if sh == 128 {
+        hi
+    } else if sh < 256 {
+        hi >> (sh - 128)
+    } else {
+        0
+    }
+}
+
+/// raw bits (layout lay, signed) of num/den * pi, |result| must fit; k = num, den = 2^dlog
+fn pi_multiple(lay: Lay, k: i64, dlog: u32) -> Option<u128> {
+    // k * pi / 2^dlog in lay.f fractional bits = (|k| * PI_125) >> (125 + dlog - f)
+    if lay.f > 125 {
+        return None;
+    }
+    let mag = mul_shr(k.unsigned_abs() as u128, PI_125, 125 + dlog - lay.f);
+    if mag > lay.max_bits() {
+        return None;
+    }
+    Some(from_sign_mag(lay, k < 0, mag))
+}
+
+/// value v (integer) * 2^e as raw bits of lay, if it fits
+pub fn pow2_bits(lay: Lay, neg: bool, m: u128, e: i32) -> Option<u128> {
+    let sh = e + lay.f as i32;
+    let mag = if sh >= 0 {
+        if sh >= 128 || (m.leading_zeros() as i32) < sh {
+            return None;
+        }
+        m << sh
+    } else if sh > -128 {
+        m >> (-sh)
+    } else {
+        0
+    };
+    if neg && !lay.signed && mag != 0 {
+        return None;
+    }
+    let lim = if neg { lay.min_bits().max(1) } else { lay.max_bits() };
+    if lay.signed && neg {
+        if mag > (1u128 << (lay.n - 1)) {
+            return None;
+        }
+    } else if mag > lim {
+        return None;
+    }
+    Some(from_sign_mag(lay, neg, mag))
+}
+
+/// Operand for a math function on source layout `s` with destination layout `d`.
+/// kind: 0 general (sqrt/log2/ln), 1 exp argument, 2 angle |x|<=200, 3 tan angle |x|<=100,
+/// 4 angle of any magnitude (work bound only)
+pub fn gen_trans_operand(rng: &mut Rng, s: Lay, d: Lay, kind: u32) -> u128 {
+    let one = 1u128 << s.f;
+    let ulp = rng.range(-3, 3) as i128 as u128;
+    let int_d = d.n - d.f - d.signed as u32; // magnitude bits of D
+    match kind {
+        0 => match rng.below(12) {
+            0 => *rng.pick(&[0u128, 1, 2, 3]),
+            1 => one.wrapping_add(ulp) & s.mask(),
+            2 => s.max_bits().wrapping_sub(rng.below(3) as u128),
+            3 => s.min_bits().wrapping_add(rng.below(3) as u128),
+            4 => {
+                // 2^k +- few ulp over the whole exponent range of S
+                let k = rng.range(-(s.f as i64), (s.n - s.f) as i64 - 1) as i32;
+                pow2_bits(s, false, 1, k).map(|b| b.wrapping_add(ulp) & s.mask()).unwrap_or(one)
+            }
+            5 => {
+                // reciprocal limit of D: x ~ 2^-(int_d) .. 2^-(int_d)+1 (1/x just fits / just overflows D)
+                let k = -(int_d as i32) + rng.range(-1, 1) as i32;
+                pow2_bits(s, false, 1, k).map(|b| b.wrapping_add(ulp) & s.mask()).unwrap_or(1)
+            }
+            6 => mul_shr(E_125, 1, 125 - s.f.min(125)).wrapping_add(ulp) & s.mask(),
+            7 => {
+                // perfect squares +- ulp: (m * 2^-h)^2
+                let h = s.f / 2;
+                let m = rng.next128() & mask((rng.below((s.n as u64 - 2) / 2) + 1) as u32);
+                let sq = m.wrapping_mul(m) << (s.f - 2 * h);
+                sq.wrapping_add(ulp) & s.max_bits()
+            }
+            8 => {
+                // mantissa 4 - ulp style (repeated squaring lands on 2 +- ulp): sqrt(2)-ish, 2^(1/2^j)
+                let k = rng.range(-(s.f as i64) / 2, (s.n - s.f) as i64 - 2) as i32;
+                // 1.0110101000001... = sqrt2 = 0xB504F333F9DE6484597D89B3754ABE9F * 2^-127
+                let r2: u128 = 0xB504F333F9DE6484597D89B3754ABE9F;
+                let sh = 127 - s.f as i32 - k;
+                let v = if sh >= 0 && sh < 128 { r2 >> sh } else { one };
+                v.wrapping_add(ulp) & s.max_bits()
+            }
+            9 if s.signed => gen_bits(rng, s),
+            _ => {
+                // log-uniform positive magnitude
+                let len = 1 + rng.below((s.n - s.signed as u32) as u64) as u32;
+                (rng.next128() & mask(len)) | (1u128 << (len - 1))
+            }
+        },
+        1 => {
+            // exp argument: spread over +-(ln MAX_D + 3), dense near the overflow threshold and near 0/1
+            let thr = mul_shr(LN2_127, (int_d as u128) << 20, 127 + 20 - s.f); // int_d * ln2, raw in S
+            match rng.below(10) {
+                0 => *rng.pick(&[0u128, 1, 2]) ,
+                1 => one.wrapping_add(ulp) & s.mask(),
+                2 => (thr.wrapping_add(rng.range(-40, 40) as i128 as u128)) & s.mask(),
+                3 => (thr.wrapping_add(rng.range(-40, 40) as i128 as u128)).wrapping_neg() & s.mask(),
+                4 => s.max_bits(),
+                5 => s.min_bits().wrapping_add(rng.below(2) as u128),
+                6 => {
+                    // small integers and halves
+                    let k = rng.range(-(int_d as i64) - 3, int_d as i64 + 3);
+                    let half = if rng.chance(1, 2) { one >> 1 } else { 0 };
+                    ((k as i128 as u128) << s.f).wrapping_add(half) & s.mask()
+                }
+                7 => gen_bits(rng, s),
+                _ => {
+                    // uniform in [-thr-3, thr+3]
+                    let span = thr.wrapping_add(3 * one);
+                    let v = if span == 0 { 0 } else { rng.next128() % span };
+                    if rng.chance(1, 2) { v.wrapping_neg() & s.mask() } else { v & s.mask() }
+                }
+            }
+        }
+        2 | 3 => {
+            let lim: i64 = if kind == 2 { 200 } else { 100 };
+            let limraw = (lim as u128) << s.f;
+            match rng.below(10) {
+                0 | 1 | 2 => {
+                    // k * pi/4 +- few ulp
+                    let kmax = lim * 4 * 1000 / 3142; // floor(lim / (pi/4)) conservative
+                    let k = rng.range(-kmax, kmax);
+                    pi_multiple(s, k, 2).map(|b| b.wrapping_add(ulp) & s.mask()).unwrap_or(0)
+                }
+                3 => {
+                    // tan poles +- 1/64 region: (2k+1) pi/2 +- (1/64 + small)
+                    let kmax = lim * 2 * 1000 / 3142 - 1;
+                    let k = rng.range(-kmax / 2 - 1, kmax / 2);
+                    let base = pi_multiple(s, 2 * k + 1, 1).unwrap_or(0);
+                    let delta = (one >> 6).wrapping_add((rng.range(-2000, 2000) as i128 as u128).wrapping_mul((one >> 20).max(1)));
+                    if rng.chance(1, 2) { base.wrapping_add(delta) & s.mask() } else { base.wrapping_sub(delta) & s.mask() }
+                }
+                4 => {
+                    let v = *rng.pick(&[limraw, limraw.wrapping_neg(), 0, 1, one]);
+                    v.wrapping_add(if v == limraw { (rng.below(3) as u128).wrapping_neg() } else if v == limraw.wrapping_neg() { rng.below(3) as u128 } else { ulp }) & s.mask()
+                }
+                5 => {
+                    // tiny angles
+                    let len = 1 + rng.below(s.f.min(40) as u64) as u32;
+                    let v = rng.next128() & mask(len);
+                    if rng.chance(1, 2) { v.wrapping_neg() & s.mask() } else { v }
+                }
+                _ => {
+                    let v = rng.next128() % (limraw + 1);
+                    if rng.chance(1, 2) { v.wrapping_neg() & s.mask() } else { v }
+                }
+            }
+        }
+        _ => match rng.below(6) {
+            0 => s.max_bits().wrapping_sub(rng.below(3) as u128),
+            1 => s.min_bits().wrapping_add(rng.below(3) as u128),
+            2 => {
+                let k = rng.range(0, (s.n - s.f) as i64 - 2) as i32;
+                pow2_bits(s, rng.chance(1, 2), 1, k).unwrap_or(one)
+            }
+            3 => gen_trans_operand(rng, s, d, 2),
+            _ => gen_bits(rng, s),
+        },
+    }
+}
